@@ -695,12 +695,29 @@ func (w *world) oracle(st sigsrv.VerifSnapshot) {
 		s.mu.Unlock()
 		var curOpen bool
 		var curEp uint64
+		recvInEpoch := map[uint64]bool{}
 		for _, r := range out {
 			switch r.kind {
 			case 0:
 				curOpen, curEp = true, r.n
+				recvInEpoch = map[uint64]bool{}
 			case 1:
 				curOpen = false
+				recvInEpoch = map[uint64]bool{}
+			case 2: // ack n: this call must have submitted a message n in the epoch last announced to it
+				ok := false
+				for _, mi := range w.msgs {
+					if mi.call == s.id && mi.seqno == r.n && mi.hadSess && mi.subEpoch == curEp && mi.subSeq == curEp {
+						ok = true
+					}
+				}
+				if !curOpen || !ok {
+					w.fail("C22", "cross-epoch-ack", fmt.Sprintf("S%d got AckMsg(%d) in epoch open=%v %d without having submitted message %d in that epoch", s.id, r.n, curOpen, curEp, r.n))
+				}
+			case 3: // clear n: the message n must have been delivered to this call in the same epoch
+				if !curOpen || !recvInEpoch[r.n] {
+					w.fail("C22", "cross-epoch-clear", fmt.Sprintf("S%d got ClearMsg(%d) in epoch open=%v %d without a RecvMsg %d in that epoch", s.id, r.n, curOpen, curEp, r.n))
+				}
 			case 4:
 				mi := w.byPtr[r.m]
 				if mi == nil {
@@ -724,6 +741,7 @@ func (w *world) oracle(st sigsrv.VerifSnapshot) {
 				if !curOpen || curEp != mi.subEpoch {
 					w.fail("C22", "cross-epoch-delivery", fmt.Sprintf("msg#%d submitted in epoch %d delivered to S%d after announcement open=%v epoch=%d", mi.tag, mi.subEpoch, s.id, curOpen, curEp))
 				}
+				recvInEpoch[r.m.GetSeqno()] = true
 			}
 		}
 	}
@@ -1099,6 +1117,22 @@ func fixed(c *hx.Ctx) {
 		w.sessReq(b3, w.seqFor(b3, 0), w.rSend(w.newMsg(1, "good", 1)))
 		w.sessReq(b3, w.seqFor(b3, 0), rClear(1))
 		w.c.Class("fixed-reopen")
+		w.finish(true)
+	}
+	// a pending clear (never broadcast by itself) must not survive a re-open
+	{
+		w := newWorld(c, 3)
+		a := w.sessStart(0, 0, w.rInit(2), 2, true)
+		b := w.sessStart(2, 0, w.rInit(0), 0, true)
+		w.sessReq(a, w.seqFor(a, 0), w.rSend(w.newMsg(0, "good", 1)))
+		w.sessReq(a, w.seqFor(a, 0), rClear(1)) // b.recvClear pending, nobody woken
+		a2 := w.sessStart(0, 0, w.rInit(2), 2, true) // usurp: epoch change at registration
+		w.sessReq(a2, w.seqFor(a2, 0), w.rSend(w.newMsg(0, "good", 2)))
+		w.sessReq(a2, w.seqFor(a2, 0), rClear(2))
+		w.sessCancel(a2) // epoch change at cleanup
+		w.sessStart(0, 0, w.rInit(2), 2, true)
+		w.sessReq(b, w.seqFor(b, 0), w.rSend(w.newMsg(2, "good", 5)))
+		w.c.Class("fixed-pending-clear")
 		w.finish(true)
 	}
 	// listen, open, close, open (the tracker must survive); second listen usurps
